@@ -153,7 +153,12 @@ class Inotify:
         self._lock = threading.Lock()
         self._closed = False
         self._is_reading = False
-        self._kill_r, self._kill_w = os.pipe()
+        try:
+            self._kill_r, self._kill_w = os.pipe()
+        except OSError:
+            # Do not leak the inotify descriptor when the wake-up channel cannot be created.
+            os.close(inotify_fd)
+            raise
 
         # _check_inotify_fd will return true if we can read _inotify_fd without blocking
         if hasattr(select, "poll"):
